@@ -264,7 +264,7 @@ def run(run: Run):
     run.guard('C08.R2', r2_r3, run, src)
     run.guard('C08.R4', r4, run, src, rt)
     from . import c02
-    borrow(run, 'C08.R5', c02.r3, src)
+    borrow(run, "C08.R5", c02.r3_both, src)
     from .common import check_per_instance_state
     run.rule('C08.R6', 'runtime state is per instance: one executor cannot change what another one reports')
     run.guard('C08.R6', check_per_instance_state, run, 'C08.R6', get_runtime(get_source()))
